@@ -331,6 +331,69 @@ def e_api(c):
     return {"nontrivial": len(c["splits"]) >= 2 and kind != "default", "classes": [kind, f"order{n}", f"splits{min(len(c['splits']), 4)}"]}
 
 
+
+# --------------------------------------------------------------------------------------------------
+# every request length in a window (length-dependent code paths: block sizes, vector/loop switch-overs), and call histories
+
+WIN = 9300
+
+
+def enum_lengths(tier, shard, nshards):
+    """thorough: every length 1..WIN for every order (from a state that depends on the length); quick: ~310 lengths per order"""
+    k = 0
+    for n in TAPS:
+        if tier == "thorough":
+            lens = range(1, WIN + 1)
+        else:
+            rs = np.random.RandomState(1000 + n)
+            lens = sorted(set(rs.randint(1, WIN + 1, 300).tolist()) | {1, 2, n - 1, n, n + 1, 4095, 4096, 4097, 8191, 8192, WIN})
+        for L in lens:
+            if k % nshards == shard:
+                yield {"order": n, "len": int(L)}
+            k += 1
+
+
+def e_length(c):
+    n, L = c["order"], c["len"]
+    t = TAPS[n]
+    s = ((L * 2654435761) ^ (L << 7) ^ 0x5A5A5) % (2 ** n - 1) + 1          # a non-zero state that varies with the length
+    o = ref_bits(n, t, s, L)
+    out, st_ = lib(D.PRBS, n, len=L, seed=s, return_seed=True)
+    check(out.data.shape == (L,) and np.array_equal(out.data, o[:L]), "prbs!=reference-sequence", f"order {n} state {s:#x} len {L}")
+    check(int(st_) == state_after(n, o, L), "prbs-returned-state!=reference", f"order {n} start {s:#x} len {L}: got {int(st_):#x} want {state_after(n, o, L):#x}")
+    more, _ = lib(D.PRBS, n, len=n + 3, seed=st_, return_seed=True)
+    o2 = ref_bits(n, t, s, L + n + 3)
+    check(np.array_equal(more.data, o2[:L + n + 3][L:]), "resume!=single-call", f"order {n} state {s:#x}: {n + 3} bits resumed after {L}")
+    return {"nontrivial": L > n, "classes": [f"order{n}", "len>=4096" if L >= 4096 else "len<4096"]}
+
+
+@st.composite
+def s_hist(draw):
+    n = draw(st.sampled_from(list(TAPS)))
+    ln = st.one_of(st.integers(2 ** 17, 2 ** 17 + 40000), st.integers(2 ** 17, 2 ** 17 + 40000), st.integers(1, 6000), st.integers(4096, 70000))
+    return {"order": n, "base": draw(st.integers(1, 2 ** n - 1)), "lens": draw(st.lists(ln, min_size=2, max_size=3)), "same_seed": draw(st.sampled_from([True, True, False]))}
+
+
+def e_hist(c):
+    """successive calls in one process, mostly with the SAME (order, seed) and different lengths (longer then shorter, shorter then longer):
+    each call returns the reference bits and the reference state whatever was requested before"""
+    n, t = c["order"], TAPS[c["order"]]
+    cls = []
+    prev = None
+    for i, L in enumerate(c["lens"]):
+        s = c["base"] if c["same_seed"] else (c["base"] + i * 7919) % (2 ** n - 1) + 1
+        o = ref_bits(n, t, s, L)
+        out, st_ = lib(D.PRBS, n, len=L, seed=s, return_seed=True)
+        check(out.data.shape == (L,) and np.array_equal(out.data, o[:L]), "prbs!=reference-sequence", f"order {n} state {s:#x} len {L} (call {i + 1} of {c['lens']})")
+        check(int(st_) == state_after(n, o, L), "prbs-returned-state!=reference", f"order {n} state {s:#x} len {L} (call {i + 1} of {c['lens']}, same seed: {c['same_seed']})")
+        if prev is not None and c["same_seed"]:
+            cls.append("shorter-after-longer" if L < prev else "longer-after-shorter" if L > prev else "same-length")
+            if min(L, prev) >= 2 ** 17:
+                cls.append("both>=2^17")
+        prev = L
+    return {"nontrivial": c["same_seed"] and max(c["lens"]) >= 2 ** 17, "classes": cls + [f"order{n}"]}
+
+
 s_err = st.fixed_dictionaries({"order": st.integers(1, 40), "len": st.sampled_from([0, -1, -100, "20", 3.0, None, [5], 2.5]),
                                "good": st.sampled_from(list(TAPS)), "seed": st.integers(1, 100)})
 
@@ -364,5 +427,9 @@ PARTS = [
     Part("agree", e_agree, kind="custom", custom=custom_agree, shards=16, quick_shards=12, exhaustive=True,
          rule="every chunk of the state cycle compared bit-for-bit with the reference incl. hand-over state; one evaluation per state"),
     Part("api", e_api, s_api(), quick=600, thorough=20000, shards=8, rule="non-trivial: >=2 splits and a non-default seed"),
+    Part("lengths", e_length, kind="enum", enum=enum_lengths, shards=16, quick_shards=4,
+         rule="quick: ~310 request lengths per order in 1..9300 (switch-over values included); thorough: EVERY length 1..9300 for every order; bits, returned state and a resumed tail"),
+    Part("history", e_hist, s_hist(), quick=10, thorough=120, shards=16, quick_shards=4, shrink=False,
+         rule="2-3 successive calls, mostly with the same (order, seed), lengths up to 2^17+40000: longer-then-shorter and shorter-then-longer; non-trivial: same seed and a call >= 2^17 bits"),
     Part("errors", e_err, s_err, quick=200, thorough=4000, shards=2, rule="unsupported orders, bad len values, default len/seed"),
 ]
